@@ -28,6 +28,7 @@ type Profile struct {
 	Backfill    int // weight of dump-feed snapshot checks
 	FeedsMax    int // number of live feeds to start (0..FeedsMax)
 	MultiHandle bool
+	KeepFeeds   bool // the oracle needs the configured feeds (minimisation must not drop them)
 	Extra       []ExtraAction
 	Prefix      func(rt *rapid.T, r *Run) []Op // steps every history starts with
 	Setup       func(r *Run)                   // runs right after the world is created (also in replays)
@@ -129,7 +130,7 @@ func mustJSON(v any) []byte {
 var jsonBodyOverride func(rt *rapid.T) []byte
 
 func genBody(rt *rapid.T, class string, small bool) []byte {
-	if jsonBodyOverride != nil && (class == "obj" || class == "json") && chance(rt, 85, "body.override") {
+	if jsonBodyOverride != nil && (class == "obj" || class == "json") {
 		return jsonBodyOverride(rt)
 	}
 	if small && chance(rt, 12, "body.big") {
@@ -157,6 +158,9 @@ func genBody(rt *rapid.T, class string, small bool) []byte {
 		k := rapid.IntRange(0, 9).Draw(rt, "body.rkind")
 		switch {
 		case k <= 3:
+			if jsonBodyOverride != nil {
+				return jsonBodyOverride(rt)
+			}
 			return mustJSON(genJSONObject(rt, 1, "body"))
 		case k == 4:
 			return []byte{0, 1, 0xff, 0xfe, 'r', 0}
